@@ -237,6 +237,28 @@ fn check(ctx: &Ctx, c: &Case) -> PResult {
         );
         ctx.label("undersized capacity refused");
     }
+    // "for every circuit that COMPILES": capacities just below the documented
+    // minimum are normally refused; if one of them is admitted, the compiled
+    // keys must still prove and verify
+    if c.seed % 3 == 0 && min_cap >= 8 {
+        let sub = min_cap - 1 - (c.seed as usize / 3) % 3;
+        let spp = sys::pp(sub);
+        match no_panic("compile-panic", || sys::compile(&spp, &c.label, &program, r1))? {
+            Err(_) => ctx.label("capacity just below the minimum refused"),
+            Ok((p, v)) => {
+                ctx.label("capacity just below the minimum admitted");
+                let (proof, pi) = no_panic("prove-panic", || sys::prove(&p, &program, c.seed))?.map_err(|e| {
+                    Fail::new(
+                        format!("prove-error:{}", err_name(&e)),
+                        format!("capacity {sub} (below the documented minimum {min_cap}) compiled {n} constraints, but the satisfied circuit does not prove: {e:?}"),
+                    )
+                })?;
+                no_panic("verify-panic", || v.verify(&proof, &pi))?.map_err(|e| {
+                    Fail::new("verify-rejects-honest", format!("capacity {sub} (below the documented minimum {min_cap}): honest proof rejected: {e:?}"))
+                })?;
+            }
+        }
+    }
     let prover = if c.prover_bytes {
         let b = prover.to_bytes();
         no_panic("prover-decode-panic", || Prover::try_from_bytes(&b))?.map_err(
@@ -446,7 +468,7 @@ pub fn sweeps(ctx: &Ctx) {
 }
 
 pub fn describe(ctx: &Ctx) {
-    ctx.rule("cases: generated circuit programs (every public component + raw arithmetic rows, satisfying by construction through an independent value model), constraint targets 2^k+delta (k<=9 quick / 12 thorough, delta in -8..=8) by padding at a generated position, labels of 0..40 arbitrary bytes, capacities {minimal, minimal+odd, minimal+7, double, far larger (4101)}, prover route x verifier route in {instance, Default, compressed}^2, optional byte round trip of prover/verifier, V3 and V2; plus the exhaustive (k,delta) sweep with a PI on the first and last row; non-trivial = more than the 4 fixed rows; distinct by (layout digest, capacity, routes, byte-routes)");
+    ctx.rule("cases: generated circuit programs (every public component + raw arithmetic rows, satisfying by construction through an independent value model), constraint targets 2^k+delta (k<=9 quick / 12 thorough, delta in -8..=8) by padding at a generated position, labels of 0..40 arbitrary bytes, capacities {minimal, minimal+odd, minimal+7, double, far larger (4101)} and, for a third of the cases, 1..3 below the minimum (refused, or else the keys must work), prover route x verifier route in {instance, Default, compressed}^2, optional byte round trip of prover/verifier, V3 and V2; plus the exhaustive (k,delta) sweep with a PI on the first and last row; non-trivial = more than the 4 fixed rows; distinct by (layout digest, capacity, routes, byte-routes)");
     ctx.assume("witness values are those of the harness's value model (checked equal to what the composer computed)");
     ctx.assume("degenerate (zero) blinders are not generated here (ChaCha-seeded RNG)");
     let _ = fe_any;
